@@ -177,10 +177,15 @@ pub fn gen_opt_tree(r: &mut Rng, depth: u32, ill: bool) -> E {
 pub fn gen_env_line(r: &mut Rng, len: usize, wide: bool) -> String {
     let names: &[&str] = if wide { &["a", "A", "b", "B", "ab", "Ab", "AB", "ü", "Ü", "x_1", "X_1", "é", "É", "ж", "Ж", "long", "LONG", "Long", "q", "if_then",
         // special casing: titlecase digraphs, sharp s, dotted capital I, final sigma, ligature
-        "ǅungla", "ǆungla", "ǄUNGLA", "straße", "STRASSE", "İx", "i\u{307}x", "ΟΔΟΣ", "οδος", "οδοσ", "ﬁn", "FIN", "Ⅷ", "ⅷ"] } else { &["a", "A", "b", "B"] };
+        "ǅungla", "ǆungla", "ǄUNGLA", "straße", "STRASSE", "İx", "i\u{307}x", "ΟΔΟΣ", "οδος", "οδοσ", "ﬁn", "FIN", "Ⅷ", "ⅷ",
+        // names of standard-library functions in several spellings: host functions registered before / after extend_environment
+        "max", "MAX", "Length", "length", "abs", "Abs", "bool", "IF_THEN"] } else { &["a", "A", "b", "B"] };
     let behs = ["first", "cnt", "fail", "arr", "k0", "k1", "k2", "k3", "last"];
     let mut p = vec!["env".to_string()];
-    for _ in 0..len {
+    let ext_at = if wide && r.chance(1, 3) { Some(r.usize(len)) } else { None };
+    let ext2_at = if ext_at.is_some() && r.chance(1, 3) { Some(r.usize(len)) } else { None };
+    for i in 0..len {
+        if Some(i) == ext_at || Some(i) == ext2_at { p.push(ext_op()); }
         let n = hex(*r.pick(names));
         let op = match r.below(14) {
             0 | 1 => format!("av {} {}", n, show_in(&gen_small_val(r))),
@@ -199,6 +204,18 @@ pub fn gen_env_line(r: &mut Rng, len: usize, wide: bool) -> String {
         p.push(op);
     }
     p.join(" ")
+}
+/// `ext k <descriptions>`: extend_environment, with what it registers spelled out for the model (name, arity, purity as the RUNNING crate
+/// declares them in `builtins()`; behaviour `b:<name>` = the model of that builtin)
+pub fn ext_op() -> String {
+    use slac::function::Arity;
+    let bs = slac::stdlib::builtins();
+    let mut s = format!("ext {}", bs.len());
+    for f in &bs {
+        let (k, req, opt) = match f.arity { Arity::Polyadic { required, optional } => ('P', required, optional), Arity::Variadic => ('V', 0, 0), Arity::None => ('N', 0, 0) };
+        s.push_str(&format!(" {} {} {} {} {} b:{}", hex(&f.name), k, req, opt, if f.pure { 1 } else { 0 }, f.name));
+    }
+    s
 }
 /// exhaustive small histories: index i encodes a sequence of `len` ops from a fixed alphabet, each followed by all lookups
 pub fn env_alphabet() -> Vec<String> {
